@@ -182,4 +182,29 @@ void any_ops(const double * in, double * out)
   x.template get<M>() = load<M>(in + R);
   store(cp.template get<M>(), out);
 }
+// ---- AnyManifold holding a value whose dof is only known at run time (VectorXd of size 3, std::vector<SO3> of size 2)
+// out = [dof(any) | dof of the wrapped value | rplus value | rminus]
+inline void any_dyn_vx(const double * in, double * out)
+{
+  Eigen::VectorXd v = Eigen::Map<const Eigen::VectorXd>(in, 3), w = Eigen::Map<const Eigen::VectorXd>(in + 3, 3);
+  smooth::AnyManifold x(v), y(w);
+  *out++ = static_cast<double>(smooth::dof(x));
+  *out++ = static_cast<double>(smooth::dof(v));
+  Eigen::VectorXd a = Eigen::Map<const Eigen::VectorXd>(in + 6, 3);
+  smooth::AnyManifold p = smooth::rplus(x, a);
+  const auto & pv = p.get<Eigen::VectorXd>();
+  for (int i = 0; i < 3; ++i) *out++ = pv(i);
+  Eigen::VectorXd r = smooth::rminus(x, y);
+  *out++ = static_cast<double>(r.size());
+  for (int i = 0; i < 3; ++i) *out++ = r(i);
+}
+inline void any_dyn_vec(const double * in, double * out)
+{
+  std::vector<smooth::SO3d> v{load<smooth::SO3d>(in), load<smooth::SO3d>(in + 4)};
+  smooth::AnyManifold x(v);
+  *out++ = static_cast<double>(smooth::dof(x));
+  *out++ = static_cast<double>(smooth::dof(v));
+  smooth::AnyManifold cp = x;
+  *out++ = static_cast<double>(smooth::dof(cp));
+}
 }  // namespace vm
